@@ -1,11 +1,11 @@
 package main
 
 import (
-	"strings"
 	"crypto"
 	"crypto/rand"
 	"crypto/rsa"
 	"fmt"
+	"strings"
 
 	"github.com/cloudflare/circl/abe/cpabe/tkn20"
 	"github.com/cloudflare/circl/blindsign/blindrsa"
@@ -252,7 +252,11 @@ func allAdapters(seed int64) []adapter {
 			enc2, _, err := snd2.SetupAuth(rd, skS)
 			must(err)
 			add(adapter{name: fmt.Sprintf("hpke.Receiver.SetupAuth[%s]", sch.Name()), covers: []string{"hpke|*Receiver|SetupAuth"}, valid: [][]byte{enc2}, cost: 30,
-				call: func(b []byte) bool { r, _ := suite.NewReceiver(skR, nil); _, err := r.SetupAuth(b, pkS); return err == nil }})
+				call: func(b []byte) bool {
+					r, _ := suite.NewReceiver(skR, nil)
+					_, err := r.SetupAuth(b, pkS)
+					return err == nil
+				}})
 			add(adapter{name: fmt.Sprintf("hpke.Receiver.SetupAuthPSK[%s]", sch.Name()), covers: []string{"hpke|*Receiver|SetupAuthPSK"}, valid: [][]byte{enc2}, cost: 30, budget: 400,
 				call: func(b []byte) bool {
 					r, _ := suite.NewReceiver(skR, nil)
@@ -288,7 +292,11 @@ func allAdapters(seed int64) []adapter {
 					return err == nil
 				}})
 			add(adapter{name: "hpke.Opener.Open", covers: []string{"hpke|(*openContext)|Open"}, valid: [][]byte{ct}, cost: 10,
-				call: func(b []byte) bool { o2, _ := hpke.UnmarshalOpener(mo); _, err := o2.Open(b, []byte("aad")); return err == nil }})
+				call: func(b []byte) bool {
+					o2, _ := hpke.UnmarshalOpener(mo)
+					_, err := o2.Open(b, []byte("aad"))
+					return err == nil
+				}})
 		}
 	}
 
@@ -319,6 +327,25 @@ func allAdapters(seed int64) []adapter {
 			call: func(b []byte) bool { return at.CouldDecrypt(b) }})
 		add(adapter{name: "tkn20.Policy.ExtractFromCiphertext", covers: []string{"abe/cpabe/tkn20|*Policy|ExtractFromCiphertext"}, valid: [][]byte{ct}, cost: 100, budget: 2500,
 			call: func(b []byte) bool { var p tkn20.Policy; return p.ExtractFromCiphertext(b) == nil }})
+		// a policy that was ACCEPTED from untrusted bytes is then used like any other policy (printed, queried, encrypted under): when the
+		// mutation changed the policy that use must not panic either
+		polStr := pol.String()
+		// (the mutated input is the first 256 bytes of the ciphertext - where the policy sits - and the rest is appended unchanged, so that
+		// the budget is spent on the policy's fields: every offset there gets every operator)
+		const polArea = 256
+		add(adapter{name: "tkn20.Policy.ExtractFromCiphertext+use", covers: []string{"abe/cpabe/tkn20|*Policy|ExtractFromCiphertext"}, valid: [][]byte{ct[:polArea]}, cost: 100, budget: 12000,
+			call: func(b []byte) bool {
+				var p tkn20.Policy
+				b = append(append([]byte{}, b...), ct[polArea:]...)
+				if p.ExtractFromCiphertext(b) != nil {
+					return false
+				}
+				if p.String() != polStr {
+					_ = p.Satisfaction(at)
+					_, _ = pk.Encrypt(rd, p, []byte("m"))
+				}
+				return true
+			}})
 		add(adapter{name: "tkn20.Policy.FromString", covers: []string{"abe/cpabe/tkn20|*Policy|FromString"}, cost: 1,
 			valid: [][]byte{[]byte("(country: NL and (tier: 1 or not region: US)) or admin: yes"), []byte("a:b"), []byte("not (a:b and c:d)")},
 			call:  deepCalls["tkn20.Policy.FromString"],
@@ -350,7 +377,9 @@ func allAdapters(seed int64) []adapter {
 		add(adapter{name: "bls.Verify[G2](sig)", covers: []string{"sign/bls||Verify"}, valid: [][]byte{sg2}, cost: 100, budget: 600,
 			call: func(b []byte) bool { return bls.Verify(sk2.PublicKey(), msg, b) }})
 		add(adapter{name: "bls.VerifyAggregate[G1](sig)", covers: []string{"sign/bls||VerifyAggregate"}, valid: [][]byte{sg1}, cost: 100, budget: 300,
-			call: func(b []byte) bool { return bls.VerifyAggregate([]*bls.PublicKey[bls.G1]{sk1.PublicKey()}, [][]byte{msg}, b) }})
+			call: func(b []byte) bool {
+				return bls.VerifyAggregate([]*bls.PublicKey[bls.G1]{sk1.PublicKey()}, [][]byte{msg}, b)
+			}})
 		add(adapter{name: "bls.Aggregate[G2](sig)", covers: []string{"sign/bls||Aggregate"}, valid: [][]byte{sg2}, cost: 30,
 			call: func(b []byte) bool { _, err := bls.Aggregate(bls.G2{}, []bls.Signature{sg2, b}); return err == nil }})
 		g1, g2 := bls12381.G1Generator(), bls12381.G2Generator()
